@@ -87,7 +87,7 @@ class Spec:
         for gi in range(n + len(extra)):
             if gi < n:
                 g = self.gen_hook(G, rng) if self.gen_hook else G.g(rng.randint(*self.depth))
-                inps = inputs_for(rng, g, self.alpha, extra_alpha=[EURO] if (rng.random() < 0.2 and not self.all_kinds) else [], trees="tree" in self.ikinds)
+                inps = inputs_for(rng, g, self.alpha, extra_alpha=([EURO] if (rng.random() < 0.2 and not self.all_kinds) else []) + (list(WS) if has_head(g, {"Padded"}) else []), trees="tree" in self.ikinds)
             else:
                 g, one = extra[gi - n]
                 inps = [one]
@@ -239,8 +239,8 @@ def c04_trees(rng, tier):
             out.append((g, inp, ["tree"]))
     return out
 
-C01_CTORS = CORE
-C02_CTORS = ["Any", "Just", "OneOf", "NoneOf", "Then", "Or", "Map", "Filter", "OrNot", "To"] + ITER * 3 + ["MapWith", "ToSlice", "WithCtx", "IgnoreWithCtx", "JustCfg"]
+C01_CTORS = CORE + ["CollectOrNot"] * 2
+C02_CTORS = ["Any", "Just", "OneOf", "NoneOf", "Then", "Or", "Map", "Filter", "OrNot", "To"] + ITER * 3 + ["MapWith", "ToSlice", "WithCtx", "IgnoreWithCtx", "JustCfg"] + ["CollectOrNot", "RepUnitCfg", "IntoIter", "IntoIter"]
 
 PLAIN_KINDS = ("str", "slice", "array", "stream", "bstream", "mapspan", "withctx", "bytes", "io", "graphemes", "gslice")
 ALL_KINDS = tuple(k for k in PLAIN_KINDS if k not in ("graphemes", "gslice")) + ("mapped", "mappedstream", "iter")
@@ -306,7 +306,7 @@ SPECS = {
                 nontrivial=lambda g, inp: len(inp) > 0,
                 rule="C01/C02/C08 grammars, with lazy() at random nodes (also at the top: the only way to accept a proper prefix); each sampled accepted input is also run extended by one token; "
                      "non-trivial = non-empty input"),
-    "C04": Spec("C04", CORE + SPANS + ITER + ["RepUnit"] * 3 + EMIT + RECOVER + DECOR + CTX + ["ExtWrap"] * 3 + ["Skip", "NestedDelims", "Lazy"], obs_errs,
+    "C04": Spec("C04", CORE + SPANS + ITER + ["RepUnit"] * 3 + EMIT + RECOVER + DECOR + CTX + ["ExtWrap"] * 3 + ["Skip", "NestedDelims", "Lazy"] + ["IntoIter"] * 3 + ["CollectOrNot", "RepUnitCfg", "Padded"], obs_errs,
                 gen_hook=lambda G, rng: c04_hook(G, rng), sem_obs=lambda r: (r.kind,), emit_bias=0.2,
                 ekinds=("rich", "simple", "empty"), ikinds=("str", "slice"),
                 nontrivial=lambda g, inp: len(inp) > 0 and has_head(g, {"IgnoreThen", "ThenIgnore", "Ignored", "To", "ToSlice",
@@ -314,15 +314,15 @@ SPECS = {
                 rule="grammars over every modelled constructor (Pratt tables, recursion, memoization, nested_delimiters, lazy, extension parsers included; nested inputs on token trees); each (grammar, input) is run through parse() and check(); "
                      "extension parsers (Ext over an ExtParser with a separate check path through InputRef::parse / InputRef::check) at random nodes; "
                      "non-trivial = non-empty input and an eliding / mode-forcing combinator present"),
-    "C05": Spec("C05", CORE + ITER + ["RepUnit"] * 3 + EMIT * 6 + RECOVER * 2 + ["ExtWrap"], obs_emis, ekinds=("rich",), emit_bias=0.3, n_quick=800,
+    "C05": Spec("C05", CORE + ITER + ["RepUnit"] * 3 + EMIT * 6 + RECOVER * 2 + ["ExtWrap", "CollectOrNot", "IntoIter"], obs_emis, ekinds=("rich", "empty", "cheap"), emit_bias=0.3, n_quick=800,
                 nontrivial=lambda g, inp: len(inp) > 0 and has_head(g, {"Validate", "RecoverVia", "RecoverSkipUntil", "RecoverSkipRetry"})
                                           and has_head(g, BACKTRACK),
                 rule="C01/C02 grammars with validate emitters and recover_with at random positions; "
                      "non-trivial = an emitter and a backtracking site present, non-empty input"),
-    "C06": Spec("C06", CORE + ITER, obs_last, ekinds=("rich", "simple", "cheap", "empty"), no_not=True, extra=span_wf_oracle,
+    "C06": Spec("C06", CORE + ITER + ["TryMapWith"] * 2 + ["CollectOrNot"], obs_last, ekinds=("rich", "simple", "cheap", "empty"), no_not=True, extra=span_wf_oracle,
                 nontrivial=lambda g, inp: has_head(g, BACKTRACK),
                 rule="C01/C02 grammars without `not`, all four error types on every case; non-trivial = a backtracking site present"),
-    "C07": Spec("C07", CORE + SPANS * 4 + ITER, obs_vv, ekinds=("rich",), ikinds=("str", "slice", "mapped", "mappedstream", "iter"),
+    "C07": Spec("C07", CORE + SPANS * 4 + ITER + ["Padded"], obs_vv, ekinds=("rich",), ikinds=("str", "slice", "mapped", "mappedstream", "iter"),
                 nontrivial=lambda g, inp: len(inp) > 0 and has_head(g, {"MapWith", "ToSpan", "ToSlice", "TryMapWith", "FoldlWith", "FoldrWith", "IMapWith"}),
                 rule="C01/C02 grammars with span / slice captures; multi-byte characters in the alphabet; "
                      "non-trivial = a capture node present and non-empty input"),
@@ -363,7 +363,7 @@ SPECS = {
                      "(staticharness 20-22: a second define() panics and leaves the first definition in place; clone / drop / box of handles; mutual declare-define) "
                      "on all strings up to length 6 over the bracket alphabet; "
                      "non-trivial = input of >= 2 tokens"),
-    "C15": Spec("C15", CORE + ITER + CTX * 5 + ["MapWith"], obs_vv, ekinds=("rich",),
+    "C15": Spec("C15", CORE + ITER + CTX * 5 + ["MapWith"] + ["RepUnitCfg"] * 4, obs_vv, ekinds=("rich",),
                 nontrivial=lambda g, inp: len(inp) > 0 and has_head(g, set(CTX)),
                 rule="C01/C02 grammars with with_ctx / ignore_with_ctx / then_with_ctx / map_ctx providers, configure()d just and "
                      "repeated (configure and try_configure: exactly / at_least / at_most / nothing set, and a try_configure whose closure returns an error for an "
@@ -371,13 +371,13 @@ SPECS = {
     "C17": Spec("C17", CORE + ITER + DECOR * 6, obs_full, sem_obs=obs_vv_emis, ekinds=("rich",),
                 nontrivial=lambda g, inp: has_head(g, set(DECOR)),
                 rule="C01/C02 grammars with labelled / as_context / map_err at random nodes, Rich errors; non-trivial = a decoration present"),
-    "C18": Spec("C18", CORE + ITER + RECOVER + ["MapWith"] * 6 + ["FoldlWith", "FoldrWith"] + ["Skip"] * 2 + ["WithState"] * 3, obs_vv, ekinds=("rich",), ikinds=("str", "slice"),
+    "C18": Spec("C18", CORE + ITER + RECOVER + ["MapWith"] * 6 + ["FoldlWith", "FoldrWith"] + ["Skip"] * 2 + ["WithState"] * 3 + ["Padded"] * 4, obs_vv, ekinds=("rich",), ikinds=("str", "slice"),
                 nontrivial=lambda g, inp: len(inp) > 0 and has_head(g, {"MapWith", "FoldlWith", "FoldrWith", "IMapWith"}),
                 rule="C01/C02/C08 grammars with state-observing map_with / foldl_with / foldr_with at random nodes (the inspector "
                      "hashes every token and snapshots on save), tokens also consumed through InputRef::skip in custom parsers, with_state(seed) at random nodes "
                      "(for grammars containing it only the tie decides: the specification's state is positional); "
                      "non-trivial = an observation present, non-empty input"),
-    "C20": Spec("C20", CORE + SPANS + ITER + EMIT + RECOVER + DECOR + CTX + ["ExtWrap", "Skip"], lambda r: (r.kind,), ekinds=("rich", "empty", "cheap", "simple"),
+    "C20": Spec("C20", CORE + SPANS + ITER + EMIT + RECOVER + DECOR + CTX + ["ExtWrap", "Skip", "Padded", "IntoIter", "CollectOrNot", "RepUnitCfg"], lambda r: (r.kind,), ekinds=("rich", "empty", "cheap", "simple"),
                 ikinds=("str", "slice"), nontrivial=lambda g, inp: True,
                 rule="grammars over every modelled constructor (repetition items and skip parsers syntactically consuming), "
                      "all error types; observable = the verdict class (OK / FAIL / PANIC / TIMEOUT); plus implementation-only runs with the verdict known by "
@@ -518,11 +518,14 @@ SPECS["C12"].deep = c12_deep
 SPECS["C20"].deep = c20_deep
 SPECS["C16"].extra_cases = c16_pairs
 SPECS["C16"].cross = c16_cross
-SPECS["C01"].universe = U()
-SPECS["C02"].universe = U(unary=[lambda x: ["Collect", "CVec", ["IEnum", ["IRep", x, 0, 3]]], lambda x: ["Foldr", ["IRep", x, 0, "inf"], "Empty", 5]],
+SPECS["C01"].universe = U(unary=[lambda x: ["Collect", "CVec", ["IOrNot", x]]])
+SPECS["C02"].universe = U(unary=[lambda x: ["Collect", "CVec", ["IEnum", ["IRep", x, 0, 3]]], lambda x: ["Foldr", ["IRep", x, 0, "inf"], "Empty", 5],
+                                 lambda x: ["Collect", "CVec", ["IOrNot", x]], lambda x: ["CollectExactly", 2, ["IIntoIter", ["Collect", "CVec", ["IRep", x, 0, "inf"]]]],
+                                 lambda x: ["Collect", "CCount", ["IIntoIter", ["OrNot", x]]]],
                           binary=[lambda x, y: ["Collect", "CVec", ["ISep", x, y, 1, 2, 1, 0]], lambda x, y: ["RepUnit", ["ISep", x, y, 0, "inf", 1, 1]]])
 SPECS["C03"].universe = U(unary=[lambda x: ["Lazy", x]])
-SPECS["C04"].universe = U(unary=[lambda x: ["ToSlice", x], lambda x: ["To", 1, x], lambda x: ["ExtWrap", x], lambda x: ["Validate", "PTrue", 2, x]],
+SPECS["C04"].universe = U(unary=[lambda x: ["ToSlice", x], lambda x: ["To", 1, x], lambda x: ["ExtWrap", x], lambda x: ["Validate", "PTrue", 2, x],
+                                 lambda x: ["CollectExactly", 2, ["IIntoIter", ["Collect", "CVec", ["IRep", x, 0, "inf"]]]], lambda x: ["Collect", "CVec", ["IIntoIter", ["OrNot", x]]]],
                           binary=[lambda x, y: ["DelimitedBy", x, y, y], lambda x, y: ["RecoverVia", x, y]])
 SPECS["C05"].universe = U(unary=[lambda x: ["Validate", "PTrue", 2, x]], binary=[lambda x, y: ["RecoverVia", x, y]])
 SPECS["C06"].universe = dict(leaves=U_LEAVES, unary=[f for f in U_UNARY if f("Any")[0] != "Not"], binary=U_BINARY)
@@ -548,7 +551,8 @@ SPECS["C07"].universe = U(unary=[lambda x: ["MapWith", "MWSpan", x], lambda x: [
 SPECS["C15"].universe = U(leaves=[["JustCfg", [A]]],
                           unary=[lambda x: ["WithCtx", ["VTok", A], x], lambda x: ["WithCtx", ["VList", [["VTok", A], ["VTok", B]]], x], lambda x: ["MapCtx", "FDup", x],
                                  lambda x: ["MapWith", "MWCtx", x], lambda x: ["Collect", "CVec", ["IRepCfg", x, 0, "inf", 0]],
-                                 lambda x: ["Collect", "CVec", ["IRepCfg", x, 1, 2, 8]], lambda x: ["RepUnit", ["IRepCfg", x, 0, "inf", 5]]],
+                                 lambda x: ["Collect", "CVec", ["IRepCfg", x, 1, 2, 8]], lambda x: ["RepUnit", ["IRepCfg", x, 0, "inf", 5]],
+                                 lambda x: ["RepUnit", ["IRepCfg", x, 0, "inf", 0]], lambda x: ["RepUnit", ["IRepCfg", x, 0, 1, 1]]],
                           binary=[lambda x, y: ["IgnoreWithCtx", x, y], lambda x, y: ["ThenWithCtx", x, y]])
 SPECS["C12"].universe = dict(U(leaves=[["Var", 0]], unary=[lambda x: ["DelimitedBy", x, ["Just", [A]], ["Just", [B]]]]),
                              post=lambda g: ["Rec" if sx(g).count("(") % 2 == 0 else "RecDecl", ["Or", ["IgnoreThen", ["Just", [A]], g], ["Just", [B]]]])
